@@ -205,6 +205,14 @@ def histories(draw, kinds=KINDS):
         ops.append(dict(op="save"))
         if draw(st.integers(0, 2)) == 0:
             ops.append(dict(op="folder", to=draw(st.sampled_from(["", "A", "B"]))))
+    if kind != "beam" and draw(st.integers(0, 4)) == 0:
+        # scenario: iterations on two meshes, restore the first mesh, then a THIRD mesh is assigned while an older mesh
+        # is current, saved, and every stored iteration is restored in turn
+        rec2 = draw(gm.recipes2d(types=SMALL, affine_ok=False, perm_ok=False, hmin=7, hmax=9, nmax=4))
+        rec3 = draw(gm.recipes2d(types=SMALL, affine_ok=False, perm_ok=False, hmin=7, hmax=9, nmax=4))
+        ops = [dict(op="solve", lam=0.5), dict(op="save"), dict(op="replace_mesh", recipe=rec2), dict(op="solve", lam=0.75), dict(op="save"),
+               dict(op="set_iter", i=0), dict(op="replace_mesh", recipe=rec3), dict(op="solve", lam=1.0), dict(op="save"),
+               dict(op="set_iter", i=1), dict(op="set_iter", i=2), dict(op="set_iter", i=0), dict(op="get_results", i=2)]
     ops += draw(st.lists(op_strategy(), min_size=3, max_size=12))
     case["ops"] = ops
     if kind == "beam":
